@@ -40,7 +40,7 @@ OnReset == /\ Line.ev = "reset"
            /\ UNCHANGED <<s, lobs, oseen, oopi, failed>>
 
 OnInit == /\ Line.ev = "init"
-          /\ s' = ConcInit(sc.n, Line.obs.idx, SeqToSet(Line.obs.cas), Line.obs.nv, sc.plant, sc.threads)
+          /\ s' = ConcInit(sc.n, Line.obs.idx, SeqToSet(Line.obs.cas), Line.obs.nv, Line.orph, sc.threads)
           /\ lobs' = Line.obs
           /\ oseen' = [t \in 1..NT |-> {}] /\ oopi' = [t \in 1..NT |-> 1] /\ failed' = FALSE
           /\ Report(Fail(\A k \in Keys : Line.obs.idx[k] # Absent => Line.obs.idx[k] \in SeqToSet(Line.obs.cas), "C04:dangling-at-start"))
